@@ -139,7 +139,20 @@ def model_line(case, impl_line):
 
 
 def norm(line):
-    return re.sub(r"\| CRASH \S*", "| CRASH", line)
+    """What is compared with the model: the panic text and the broker views (oracle input only) are dropped."""
+    line = re.sub(r" \| v\d+: V[^|]*(?= \||$)", "", line)
+    return re.sub(r"\| CRASH \S*", "| CRASH", line).rstrip()
+
+
+def parse_view(seg):
+    """'V nt {t np {x|n|off}}' -> {topic: [None | 'n' | int]}"""
+    f = seg.split()
+    out, i = {}, 2
+    for _ in range(int(f[1])):
+        t, npart = int(f[i]), int(f[i + 1]); i += 2
+        out[t] = [None if x == "x" else ("n" if x == "n" else int(x)) for x in f[i:i + npart]]
+        i += npart
+    return out
 
 
 def interleaved(impl_line):
@@ -154,6 +167,19 @@ def interleaved(impl_line):
 
 
 U64 = 1 << 64
+
+
+def stale_reached(impl_line):
+    """Some fetchConsumer reply holds a topic the broker map lacked at delivery (the resurrected entry)."""
+    secs = impl_line.split(" | ")
+    for s in secs:
+        if re.match(r"v\d+: V ", s):
+            try:
+                if any(v and all(x is None for x in v) for v in parse_view(s.split(": ", 1)[1]).values()):
+                    return True
+            except Exception:
+                pass
+    return False
 
 
 def parse_consumer(seg):
@@ -174,18 +200,31 @@ def oracle(impl_line):
             bad.append("hang: a handler neither reached a lock operation nor returned within 5 s")
         elif s == "alias=1":
             bad.append("reply altered: a delivered reply read differently after later writes (it aliases live storage state)")
-        elif re.match(r"r\d+: K ", s):
-            try:
-                for t, parts in parse_consumer(s.split(": ", 1)[1]).items():
-                    for i, p in enumerate(parts):
-                        offs = [o for o in p["offsets"]]
-                        if p["brokers"] and offs and offs[-1] is not None:
-                            want = max(0, p["brokers"][-1] - offs[-1][0]) % U64
-                            if p["lag"] != want:
-                                bad.append("reply inconsistent: topic %d partition %d CurrentLag=%d but last broker offset %d - last commit %d"
-                                           % (t, i, p["lag"], p["brokers"][-1], offs[-1][0]))
-            except Exception as e:  # unparsable reply
-                bad.append("reply unparsable: %s" % e)
+    # every partition of every topic of every fetchConsumer reply, against the broker side at delivery
+    for j, s in enumerate(secs):
+        if not re.match(r"r\d+: K ", s):
+            continue
+        try:
+            reply = parse_consumer(s.split(": ", 1)[1])
+            view = parse_view(secs[j + 1].split(": ", 1)[1]) if j + 1 < len(secs) and re.match(r"v\d+: V ", secs[j + 1]) else None
+            for t, parts in reply.items():
+                for i, p in enumerate(parts):
+                    offs = p["offsets"]
+                    newest = view[t][i] if view is not None else None
+                    if isinstance(newest, int):
+                        # the broker map has this topic and partition with an offset: the reply must carry it ...
+                        if not p["brokers"] or p["brokers"][-1] != newest:
+                            bad.append("reply inconsistent: topic %d partition %d: the broker map holds offset %d but the reply has BrokerOffsets=%s"
+                                       % (t, i, newest, p["brokers"]))
+                            continue
+                    if p["brokers"] and offs and offs[-1] is not None:
+                        # ... and the lag is max 0 (newest broker offset - newest commit)
+                        want = max(0, p["brokers"][-1] - offs[-1][0]) % U64
+                        if p["lag"] != want:
+                            bad.append("reply inconsistent: topic %d partition %d CurrentLag=%d but last broker offset %d - last commit %d"
+                                       % (t, i, p["lag"], p["brokers"][-1], offs[-1][0]))
+        except Exception as e:  # unparsable reply
+            bad.append("reply unparsable: %s" % e)
     return bad
 
 
@@ -321,6 +360,11 @@ def gen_cases(chk):
         ln, tg = concgen.gen_random(chk.rng, i)
         cases.append(ln)
         tags.append(tg)
+    n_stale = 250 if not chk.thorough else 6000
+    for i in range(n_stale):
+        ln, tg = concgen.gen_stale_topic(chk.rng, i)
+        cases.append(ln)
+        tags.append(tg)
     kinds = concgen.KINDS9
     import itertools
     pairs = list(itertools.combinations_with_replacement(kinds, 2))
@@ -355,7 +399,9 @@ def run(chk, failed):
                 "submission order) + a list of worker ids; the real handlers run under the deterministic lock-boundary scheduler and are "
                 "compared with the extracted StorageConc.sched_run on: the lock acquired by every step (and blocked / idle steps), every reply, "
                 "the full final state of every map and ring, crash / deadlock, and replies re-read after later writes. Cases: corpus, random "
-                "request sets on a populated state, and interleavings of every pair (and sampled triples) of the 9 request kinds "
+                "request sets on a populated state, directed stale-topic cases (a group consuming 2-4 topics with fresh broker offsets and non-zero lag; "
+                "a commit on ONE topic passes its broker lookup, the whole deleteTopic of that topic runs, the commit re-creates the entry; then the "
+                "group is fetched 3-6 times so that Go's map order puts the stale topic before the live ones), and interleavings of every pair (and sampled triples) of the 9 request kinds "
                 "B C O X DT DG FX FU FO concerning one topic / group. Non-trivial = some request was overtaken by another worker between two of "
                 "its steps; distinct by the case line")
     table_failed = [n for n, _ in failed if n.startswith("theorem:") or n.startswith("props/")]
@@ -403,6 +449,9 @@ def run(chk, failed):
         chk.count("src:" + tg[0])
         for k in tg[2:] if tg[0] == "random" else []:
             chk.count("kind:" + k)
+        if tg[0] == "stale":
+            chk.count("stale:" + tg[1])
+            chk.count("stale-entry-reached", 1 if stale_reached(a) else 0)
         if tg[0] == "tuple":
             chk.count("tuple-size:%d" % (tg[1].count("+") + 1))
         toks = trace_tokens(a)
